@@ -44,8 +44,14 @@ deriving Repr, DecidableEq
 
 /-! ### leaves: the harness renders a terminal as "<tokenType>:<text>" -/
 
-def leafType (s : String) : Int := (((s.splitOn ":").headD "").toInt?).getD (-2)
-def leafText (s : String) : String := ":".intercalate ((s.splitOn ":").drop 1)
+/-- decimal value of a digit list -/
+def digitsVal (cs : List Char) : Nat := cs.foldl (fun a c => a * 10 + (c.toNat - 48)) 0
+/-- list-based (kernel-evaluable) split of "<type>:<text>" -/
+def leafType (s : String) : Int :=
+  match s.toList.takeWhile (· != ':') with
+  | '-' :: ds => if ds.isEmpty || !(ds.all Char.isDigit) then -2 else -(Int.ofNat (digitsVal ds))
+  | ds => if ds.isEmpty || !(ds.all Char.isDigit) then -2 else Int.ofNat (digitsVal ds)
+def leafText (s : String) : String := String.ofList ((s.toList.dropWhile (· != ':')).drop 1)
 
 /-- Go's unicode.IsSpace (what strings.TrimSpace removes) -/
 def goIsSpace (c : Char) : Bool :=
